@@ -2277,7 +2277,9 @@ func (f *fragment) importRoaring(ctx context.Context, data []byte, clear bool) e
 		f.rowCache.Add(rowID, nil)
 		if updateCache {
 			anyChanged = true
-			f.cache.BulkAdd(rowID, f.cache.Get(rowID)+uint64(changes))
+			// recount from storage: the cache may not hold the row (evicted or
+			// never admitted), and clears reduce the count
+			f.cache.BulkAdd(rowID, f.storage.CountRange(rowID*ShardWidth, (rowID+1)*ShardWidth))
 		}
 	}
 	// we only set this if we need to update the cache
